@@ -100,8 +100,9 @@ Section Prog.
     change (map (fun x : ident => vid x) (f_params fd)) with (map vid (f_params fd)).
     destruct (bind_params_sim _ _ _ Eb rho w) as (rho' & w1 & E1 & X1 & Hok & Hf).
     rewrite E1. cbn [rbind].
-    destruct (H0 n Hn rho' w1 (Hf kf Hrho) Hok) as (w2 & E2 & X2).
-    unfold self_of. rewrite E2. cbn [rbind self_cell].
+    assert (Hss : self_of (self_part inst) = match cell_of inst with CSelf z => z | _ => 0%Z end) by (destruct inst; reflexivity).
+    destruct (H0 n Hn (self_part inst) Hss rho' w1 (Hf kf Hrho) Hok) as (w2 & E2 & X2).
+    rewrite E2. cbn [rbind self_node enc].
     exists w2. split; [reflexivity|eapply ext_trans; eauto].
   Qed.
 
@@ -169,7 +170,7 @@ Section Prog.
         destruct (embed_sim FT now kf fe Hfe e _ _ _ _ _ Ee) as (n1 & H1).
         destruct (IH _ _ _ _ _ El) as (n2 & H2).
         exists (Nat.max n1 n2). intros n Hn rho w Hr Hw.
-        destruct (H1 n ltac:(lia) rho w Hr Hw) as (w1 & E1 & X1).
+        destruct (H1 n ltac:(lia) st0 eq_refl rho w Hr Hw) as (w1 & E1 & X1).
         cbn [map xlets embed_let fst snd]. rewrite E1. cbn [rbind bind_pat]. unfold alloc at 1. cbn [rbind].
         pose proof (env_ok_bind r rho w1 x v (env_ok_ext _ _ _ _ Hw X1)) as Hw2.
         destruct (H2 n ltac:(lia) _ _ (fun_ok_bind kf rho x (BLoc (length (w_vars w1))) Hr) Hw2) as (rho3 & w3 & E3 & X3 & Hr3 & Hw3).
@@ -190,7 +191,7 @@ Section Prog.
         destruct (embed_sim FT now kf fe Hfe e _ _ _ _ _ Ee) as (n1 & H1).
         destruct (IH _ _ _ _ _ Eo) as (n2 & H2).
         exists (Nat.max n1 n2). intros n Hn rho w Hr Hw.
-        destruct (H1 n ltac:(lia) rho w Hr Hw) as (w1 & E1 & X1).
+        destruct (H1 n ltac:(lia) st0 eq_refl rho w Hr Hw) as (w1 & E1 & X1).
         destruct (H2 n ltac:(lia) rho w1 Hr (env_ok_ext _ _ _ _ Hw X1)) as (w2 & E2 & X2).
         cbn [map xouts]. rewrite E1. cbn [rbind as_num]. rewrite E2. cbn [rbind].
         exists w2. split; [reflexivity|eapply ext_trans; eauto].
